@@ -322,6 +322,16 @@ func ebnfNamedCases(res *xResult) {
 	ebnfCase[ebAnyText](res, nil)
 	ebnfCase[ebAnyCustom](res, map[string]bool{"Anon1": true, "Anon2": true, "Anon3": true},
 		participle.ParseTypeWith(func(lex *lexer.PeekingLexer) (any, error) { return lex.Next().Value, nil }))
+	if p, err := participle.Build[ebAnyText](); err == nil {
+		res.Evaluations++
+		if tree, err := ebnf.ParseString(p.String()); err == nil && len(tree.Productions) > 0 {
+			c := &ebnfCounts{ops: map[string]int{}}
+			countExpr(tree.Productions[0].Expression, c)
+			if c.literals != 3 {
+				res.violate("the grammar of ebAnyText (`@\"\":Ident \"=\" @\"\":Int`) prints as %q: %d literals, the tags have 3", p.String(), c.literals)
+			}
+		}
+	}
 	// ... whose reference must not get lost: the root has exactly one production reference, after the "="
 	if p, err := participle.Build[ebAnyCustom](participle.ParseTypeWith(func(lex *lexer.PeekingLexer) (any, error) { return lex.Next().Value, nil })); err == nil {
 		res.Evaluations++
